@@ -76,7 +76,7 @@ STACK_BOUND = ('api/stack: N<=2 (quick) / N<=3 (thorough) live expectations f(ge
 @prop('C01')
 def c01():
     return dict(
-        queries=find_queries() + stack_queries(1) + plumb_queries(1, (1, 2)) + [q for q in mismatch_queries(1) if q['tier'] == 'quick' and q['defs']['VF_NA'] + q['defs']['VF_NS'] <= 2],
+        queries=find_queries() + stack_queries(1) + plumb_queries(1, (1, 2, 6)) + seqstep_queries(1, quick_only=1)[:1] + [Q('dtor_order5', 'C04/dtor.cpp', 10, defs={'VF_ORDER': 5, 'VF_CLAIM': 1}, timeout=900, portfolio=True)] + [q for q in mismatch_queries(1) if q['tier'] == 'quick' and q['defs']['VF_NA'] + q['defs']['VF_NS'] <= 2],
         level='model_checking',
         level_text='Bounded: real find<Sig>() for all match/cost vectors; one real mock call against N<=2(3) real stacked expectations from an arbitrary invariant-satisfying counter state with arbitrary matcher operands and argument: accepted iff the designated candidate exists and is not forbidding, otherwise exactly one fatal report and no effect.',
         bound=STACK_BOUND + '; find<Sig> list length <=4 (6)',
@@ -93,7 +93,7 @@ def c03():
     for r in (1, 2):
         qs.append(Q('run_regime%d' % r, 'C03/run.cpp', 4, tier='thorough', defs={'VF_REGIME': r}, timeout=600))
     return dict(
-        queries=qs + stack_queries(3) + plumb_queries(3, (7, 8, 9)) + [Q('mismatch_A1_S1_15', 'C15/mismatch.cpp', 14, defs={'VF_NA': 1, 'VF_NS': 1, 'VF_C0': 1, 'VF_C1': 5, 'VF_CLAIM': 3})],
+        queries=qs + stack_queries(3) + [Q('dtor_order%d' % o, 'C04/dtor.cpp', 10, defs={'VF_ORDER': o, 'VF_CLAIM': 3}, timeout=900) for o in (1, 4)] + plumb_queries(3, (7, 8, 9)) + [Q('mismatch_A1_S1_15', 'C15/mismatch.cpp', 14, defs={'VF_NA': 1, 'VF_NS': 1, 'VF_C0': 1, 'VF_C1': 5, 'VF_CLAIM': 3})],
         level='model_checking',
         level_text='Bounded/inductive: counter predicates for all 64-bit (L,H,count); one real mock call from an arbitrary invariant-satisfying counter state moves the expectation to the saturated list iff count reaches H, stacked or alone.',
         bound='one step from an arbitrary counter state; ' + STACK_BOUND,
@@ -336,13 +336,13 @@ def c09():
 def c10():
     import gen
     files = gen.c10_files(os.path.join(GEN, 'C10'), CUR_TIER, CUR_SEED)
-    qs = [Q(name, path, 3, timeout=300, ncases=n) for name, path, n in files]
+    qs = [Q(name, path, 3, timeout=300, ncases=n) for name, path, n in files] + [Q('re_null_guard', 'C10/re.cpp', 6, defs={'VF_CLAIM': 10})]
     return dict(
         queries=qs,
         level='model_checking',
         level_text='Bounded: param_matches(tree, x) equals the mathematical predicate for all 32-bit argument and operand values (and null / non-null pointers), for every matcher expression tree in the enumerated + drawn set of depth <= 3.',
         bound='expression trees of depth <=3 over eq/ne/lt/le/gt/ge (duck-typed and <int>), _, ANY(int), plain values, !, *, any_of/all_of/none_of with 1..3 operands, MEMBER_IS; all int values',
-        outside='re(): the regular expression engine is libstdc++ and outside the claim; string operands',
+        outside='what the regular expression engine matches (libstdc++; re() is claimed only as: accepts iff the subject is non-null and the engine, replaced by an arbitrary verdict, finds the expression, with the subject range begin..begin+strlen); string operands',
     )
 
 
@@ -416,8 +416,8 @@ def c15():
 def trace_shapes(maxlen):
     out = []
     for n in range(1, maxlen + 1):
-        for seq in itertools.product((1, 3, 4, 5, 6, 7, 8), repeat=n):
-            if 8 in seq and n > 2 and maxlen <= 3 and seq.count(8) > 1: continue
+        for seq in itertools.product((1, 3, 4, 5, 6, 7, 8, 9), repeat=n):
+            if n > 2 and maxlen <= 3 and (seq.count(8) + seq.count(9) > 1 or (seq.count(8) + seq.count(9) == 1 and len(set(seq) & {4, 5, 6, 7}) > 0 and seq.count(1) == 0)): continue
             d = 0; ok = True; calls = 0
             for o in seq:
                 if o == 1:
@@ -439,7 +439,8 @@ def c17():
     for tier, ml in (('quick', 3), ('thorough', 5)):
         for i, seq in enumerate(trace_shapes(ml)):
             if seq in seen: continue
-            if tier == 'thorough' and len(seq) == 5 and (hash(seq) % 4): continue     # a quarter of the length-5 nestings
+            if tier == 'thorough' and len(seq) == 4 and (hash(seq) % 3): continue     # a third of the length-4 nestings
+            if tier == 'thorough' and len(seq) == 5 and (hash(seq) % 16): continue    # a sixteenth of the length-5 nestings
             seen.add(seq)
             defs = {'VF_O%d' % (j + 1): (seq[j] if j < len(seq) else 0) for j in range(6)}
             defs['VF_CLAIM'] = 17
@@ -448,7 +449,7 @@ def c17():
         queries=qs,
         level='model_checking',
         level_text='Bounded: for every nesting of up to 2 tracer lifetimes interleaved with up to 3 (5) accepted calls of the four kinds, each call delivers exactly one record to the innermost live tracer (none when no tracer lives), carrying the handler\'s location and text, the argument, and the returned value / what() / unknown-exception note, for all 32-bit argument and return values; the previous tracer is restored on destruction.',
-        bound='op sequences of length <=3 (quick) / <=5 (thorough, a quarter of length 5) over {construct tracer, destroy innermost, value call, void call, std-exception call, int-exception call}, nesting depth <=2',
+        bound='op sequences of length <=3 (quick, with at most one nested-call / throwing-side-effect op) / <=5 (thorough: a third of length 4, a sixteenth of length 5) over {construct tracer, destroy innermost, value call, void call, THROW std exception, THROW int, call with a nested mock call in a side effect, call whose side effect throws}, nesting depth <=2',
         outside='stream_tracer formatting; recursion from side effects',
     )
 
@@ -477,7 +478,7 @@ def c18():
 @prop('C16')
 def c16():
     return dict(
-        queries=stack_queries(16) + plumb_queries(16, (6, 7, 11)) + seqstep_queries(16, quick_only=2) + [Q('set_reporter', 'C16/setrep.cpp', 6, defs={'VF_CLAIM': 16}, timeout=600)],
+        queries=stack_queries(16) + plumb_queries(16, (6, 7, 11)) + seqstep_queries(16, quick_only=2) + [Q('set_reporter', 'C16/setrep.cpp', 6, defs={'VF_CLAIM': 16}, timeout=600), Q('dtor_order5', 'C04/dtor.cpp', 10, defs={'VF_ORDER': 5, 'VF_CLAIM': 16}, timeout=900, portfolio=True)],
         level='model_checking',
         level_text='Bounded: exactly one OK report per accepted call carrying the handling expectation\'s text; none for rejected/forbidden calls.',
         bound=STACK_BOUND,
